@@ -12,4 +12,18 @@ if ! cargo build --release --offline >"$HERE/engine/build.log" 2>&1; then
   echo "INCONCLUSIVE property=$ID engine build failed (see engine/build.log)"; tail -30 "$HERE/engine/build.log"; exit 2
 fi
 cd "$HERE" || exit 2
-exec "$HERE/engine/target/release/mv" check "$ID" --tier "$TIER"
+"$HERE/engine/target/release/mv" check "$ID" --tier "$TIER"
+RC=$?
+if [ $RC -ge 128 ] || [ $RC = 101 ]; then
+  # The process was killed by a signal (e.g. SIGABRT from a panic inside a no-unwind section of the code under test,
+  # a stack overflow, the OOM killer) or the harness itself panicked. An abort of the code under test is a crash of
+  # validation, but it cannot be shrunk in-process: the replay file records the command that reproduces it.
+  if [ $RC = 137 ]; then echo "INCONCLUSIVE property=$ID check process was killed (SIGKILL / out of memory)"; exit 2; fi
+  mkdir -p "$HERE/replays/$ID"
+  RP="$HERE/replays/$ID/process-abort-seed${VERIF_SEED:-1}-$TIER.json"
+  printf '{"property":"%s","signature":"process-abort","detail":"the check process died with status %s; re-run: VERIF_SEED=%s ./run.sh %s %s","case":{"abort":true,"seed":%s,"tier":"%s"}}\n' "$ID" "$RC" "${VERIF_SEED:-1}" "$ID" "$TIER" "${VERIF_SEED:-1}" "$TIER" > "$RP"
+  echo "VIOLATION property=$ID replay=$RP"
+  echo "  signature: process-abort (exit status $RC)"
+  exit 1
+fi
+exit $RC
